@@ -91,41 +91,55 @@ class Synth:
 
 
 def run_synth(case):
+    """One wrapper object, one or more consecutive calls on it (a wrapper is normally created once and reused for a whole stream)."""
     from ixai.utils.wrappers import SklearnWrapper, TorchWrapper
     names = list(case['names'])
-    d = len(names)
     fn = Synth(case['weights'], case['shape'], case['dtype'], case['c'])
     fnames = [names[i] for i in case['feature_names']] if case['feature_names'] is not None else None
-    used = fnames if fnames is not None else names
     torch_mode = case['wrapper'] == 'torch'
     if torch_mode:
         import torch
 
         def link(t):
-            out = fn(t.detach().cpu().numpy())
-            if out.dtype == np.bool_:
-                return torch.tensor(out)
-            return torch.tensor(out)
+            return torch.tensor(fn(t.detach().cpu().numpy()))
         w = TorchWrapper(link, feature_names=fnames) if fnames is not None else TorchWrapper(link)
     else:
         w = SklearnWrapper(fn, feature_names=fnames) if fnames is not None else SklearnWrapper(fn)
-    rows = [{n: float(v) for n, v in zip(names, r)} for r in case['rows']]
+    calls = case.get('calls') or [{'rows': case['rows'], 'perms': case['perms']}]
+    nt = False
+    labels = []
+    for ci, call in enumerate(calls):
+        res = _synth_call(case, w, fn, names, fnames, torch_mode, call, ci)
+        if isinstance(res, Result):
+            return res
+        nt = nt or res
+    if len(calls) > 1:
+        labels.append('wrapper_reused')
+    return Result(True, nontrivial=nt, labels=labels + [case['wrapper'], 'shape:' + case['shape'], case['dtype'],
+                                                        'batch' if case['batch'] else 'single',
+                                                        'feature_names' if fnames is not None else 'no_feature_names'])
+
+
+def _synth_call(case, w, fn, names, fnames, torch_mode, call, ci):
+    used = fnames if fnames is not None else names
+    rows = [{n: v for n, v in zip(names, r)} for r in call['rows']]      # ints stay ints, fractions are floats
     tol = 1e-5 if (torch_mode or case['dtype'] == 'f32') else 1e-12
     tagw = case['wrapper']
+    where = f'call {ci + 1} on the same wrapper: ' if ci else ''
 
     def expect_arr(xs):
         return np.array([[x[n] for n in used] for x in xs], dtype=float)
 
     if case['batch']:
-        xs = [dict((k, r[k]) for k in _perm(list(r), p)) for r, p in zip(rows, case['perms'])]
+        xs = [dict((k, r[k]) for k in _perm(list(r), p)) for r, p in zip(rows, call['perms'])]
         try:
             got = w(xs)
         except Exception as e:
             return Result(False, key=f'C14:{tagw}:batch:exception:{type(e).__name__}', detail=f'{case["shape"]}/{case["dtype"]}: {e!r}')
         rec = fn.received[-1]
-        if fnames is not None or all(p == 0 for p in case['perms']):
-            if rec.shape != (len(xs), len(used)) or not np.allclose(rec, expect_arr(xs), atol=1e-6):
-                return Result(False, key=f'C14:{tagw}:batch:received-array', detail=f'function received {rec!r}, expected {expect_arr(xs)!r}')
+        if fnames is not None or all(p == 0 for p in call['perms']):
+            if rec.shape != (len(xs), len(used)) or not np.allclose(np.asarray(rec, dtype=float), expect_arr(xs), atol=1e-6):
+                return Result(False, key=f'C14:{tagw}:batch:received-array', detail=where + f'function received {rec!r}, expected {expect_arr(xs)!r}')
         want_rows = fn(rec)
         want = [canon(want_rows[i]) for i in range(len(xs))]
         if not isinstance(got, list) or len(got) != len(want):
@@ -133,40 +147,37 @@ def run_synth(case):
         for i, (g, wv) in enumerate(zip(got, want)):
             if not same_canon(g, wv, tol):
                 return Result(False, key=f'C14:{tagw}:batch:canonical-form:{_shape_class(case)}',
-                              detail=f'row {i} of batch output shape {case["shape"]} dtype {case["dtype"]}: got {g!r}, canonical form is {wv!r}')
-        if fnames is not None or all(p == 0 for p in case['perms']):
-            # identical to one-at-a-time calls (the function is row independent)
+                              detail=where + f'row {i} of batch output shape {case["shape"]} dtype {case["dtype"]}: got {g!r}, canonical form is {wv!r}')
+        if fnames is not None or all(p == 0 for p in call['perms']):
             for i, x in enumerate(xs):
                 one = w(x)
-                wone = canon(fn(fn.received[-1])[0]) if case['shape'] not in ('()', '(c,)') else None
-                if wone is not None and not same_canon(one, wone, tol):
-                    return Result(False, key=f'C14:{tagw}:single-vs-batch', detail=f'row {i}: single call gives {one!r}, batch row gives {got[i]!r}')
+                rec1 = fn.received[-1]
+                if not np.allclose(np.asarray(rec1, dtype=float), expect_arr([x]), atol=1e-6):
+                    return Result(False, key=f'C14:{tagw}:single:received-array', detail=where + f'single call received {rec1!r}, expected {expect_arr([x])!r}')
                 if not same_canon(one, got[i], tol) and case['shape'] not in ('()', '(c,)'):
-                    return Result(False, key=f'C14:{tagw}:single-vs-batch', detail=f'row {i}: single call gives {one!r}, batch row gives {got[i]!r}')
+                    return Result(False, key=f'C14:{tagw}:single-vs-batch', detail=where + f'row {i}: single call gives {one!r}, batch row gives {got[i]!r}')
     else:
         x = rows[0]
-        xp = dict((k, x[k]) for k in _perm(list(x), case['perms'][0]))
+        xp = dict((k, x[k]) for k in _perm(list(x), call['perms'][0]))
         try:
             got = w(xp)
         except Exception as e:
             return Result(False, key=f'C14:{tagw}:single:exception:{type(e).__name__}', detail=f'{case["shape"]}/{case["dtype"]}: {e!r}')
         rec = fn.received[-1]
-        if fnames is not None or case['perms'][0] == 0:
-            if rec.shape != (1, len(used)) or not np.allclose(rec, expect_arr([x]), atol=1e-6):
+        if fnames is not None or call['perms'][0] == 0:
+            if rec.shape != (1, len(used)) or not np.allclose(np.asarray(rec, dtype=float), expect_arr([x]), atol=1e-6):
                 return Result(False, key=f'C14:{tagw}:single:received-array',
-                              detail=f'function received {rec!r}, expected {expect_arr([x])!r} (feature_names={fnames!r}, key order {list(xp)!r})')
+                              detail=where + f'function received {rec!r}, expected {expect_arr([x])!r} (feature_names={fnames!r}, key order {list(xp)!r})')
         want = canon(fn(rec))
         if not same_canon(got, want, tol):
             return Result(False, key=f'C14:{tagw}:single:canonical-form:{_shape_class(case)}',
-                          detail=f'output shape {case["shape"]} dtype {case["dtype"]}: got {got!r}, canonical form is {want!r}')
+                          detail=where + f'output shape {case["shape"]} dtype {case["dtype"]}: got {got!r}, canonical form is {want!r}')
         if fnames is not None:
             got2 = w(x)
             if not same_canon(got2, want, tol):
                 return Result(False, key=f'C14:{tagw}:key-order-dependence', detail=f'{got2!r} vs {got!r} for permuted keys')
     size_one = case['shape'] in ('()', '(1,)', '(1,1)', '(n,1)') or case['c'] == 1 or (case['batch'] and case['shape'] == '(n,)')
-    nt = size_one or (case['batch'] and len(rows) >= 2) or (fnames is not None and any(case['perms']))
-    return Result(True, nontrivial=nt, labels=[tagw, 'shape:' + case['shape'], case['dtype'], 'batch' if case['batch'] else 'single',
-                                               'feature_names' if fnames is not None else 'no_feature_names'])
+    return bool(size_one or (case['batch'] and len(rows) >= 2) or (fnames is not None and any(call['perms'])))
 
 
 def _shape_class(case):
@@ -186,6 +197,9 @@ def _perm(keys, p):
 # ---- RiverWrapper over generated output sequences ----------------------------------------------------
 
 def run_river_seq(case):
+    """RiverWrapper around a prediction function that is a deterministic function of the input dict (by feature NAME): which of the
+    generated outputs it returns depends on 1*x['a'] + 10*x['b'] + 100*x['c'].  Batches contain rows that carry the same value
+    sequence under different keys ({'a': 1, 'b': 0} vs {'b': 1, 'a': 0})."""
     from ixai.utils.wrappers import RiverWrapper
     outs = []
     for kind, v in case['outputs']:
@@ -199,32 +213,35 @@ def run_river_seq(case):
             outs.append(['x', 'y', 'z', 'w'][v % 4])
         else:
             outs.append({k: float(p) for k, p in v})
-    it = iter(outs)
+    weights = {'a': 1, 'b': 10, 'c': 100}
     calls = []
 
+    def raw(x):
+        return outs[int(sum(weights[k] * v for k, v in x.items())) % len(outs)]
+
     def predict_one(x):
-        calls.append(x)
-        return next(it)
+        calls.append(dict(x))
+        return raw(x)
     w = RiverWrapper(predict_one)
     seen = []
-    i = 0
-    plan = case['plan']
-    pos = 0
-    for size in plan:
-        chunk = outs[pos:pos + abs(size)]
-        if not chunk:
-            break
-        xs = [{'a': pos + j} for j in range(len(chunk))]
+    sent = []
+    for size, rows in zip(case['plan'], case['rows']):
+        xs = [dict(r) for r in rows[:abs(size)]]
+        if not xs:
+            continue
+        single = size > 0 and len(xs) == 1
         try:
-            got = w(xs[0]) if size > 0 and len(chunk) == 1 else w(xs)
+            got = w(xs[0]) if single else w(xs)
         except Exception as e:
-            return Result(False, key=f'C14:river:exception:{type(e).__name__}', detail=f'{e!r} for outputs {chunk!r}')
+            return Result(False, key=f'C14:river:exception:{type(e).__name__}', detail=f'{e!r} for inputs {xs!r}')
+        sent.extend(xs)
         got_list = [got] if isinstance(got, dict) else got
-        if isinstance(got, dict) != (size > 0 and len(chunk) == 1):
+        if isinstance(got, dict) != single:
             return Result(False, key='C14:river:list-vs-dict', detail='dict input must give a dict, list input a list')
-        if len(got_list) != len(chunk):
-            return Result(False, key='C14:river:length', detail=f'{len(got_list)} outputs for {len(chunk)} inputs')
-        for o, g in zip(chunk, got_list):
+        if not isinstance(got_list, list) or len(got_list) != len(xs):
+            return Result(False, key='C14:river:length', detail=f'{len(got_list)} outputs for {len(xs)} inputs')
+        for x, g in zip(xs, got_list):
+            o = raw(x)
             if isinstance(o, dict):
                 want = o
             elif isinstance(o, str):
@@ -232,17 +249,18 @@ def run_river_seq(case):
                     seen.append(o)
                 want = {l: (1.0 if l == o else 0.0) for l in seen}
                 if not (isinstance(g, dict) and g == want):
-                    return Result(False, key='C14:river:one-hot', detail=f'label {o!r} after labels {seen!r}: got {g!r}, expected one-hot {want!r}')
+                    return Result(False, key='C14:river:one-hot', detail=f'input {x!r}: label {o!r} after labels {seen!r}: got {g!r}, expected one-hot {want!r}')
                 continue
             else:
                 want = {'output': float(o)}
             if not (isinstance(g, dict) and g == want and (isinstance(o, dict) or isinstance(g['output'], float))):
-                return Result(False, key='C14:river:canonical-form', detail=f'model output {o!r}: got {g!r}, expected {want!r}')
-        pos += len(chunk)
-    if [c for c in calls] != [{'a': j} for j in range(len(calls))]:
-        return Result(False, key='C14:river:inputs', detail='the model did not receive the input dicts one by one in order')
+                return Result(False, key='C14:river:canonical-form',
+                              detail=f'input {x!r} (batch {xs!r}): model output {o!r}: got {g!r}, expected {want!r}')
+    # every input must have reached the model as it was given (a deterministic model may be asked only once for identical rows)
+    if any(c not in sent for c in calls) or any(x not in calls for x in sent):
+        return Result(False, key='C14:river:inputs', detail=f'the model received {calls!r}; the inputs were {sent!r}')
     kinds = {k for k, _ in case['outputs']}
-    return Result(True, nontrivial=('str' in kinds and len(seen) >= 2) or any(abs(s) >= 2 for s in plan), labels=sorted(kinds))
+    return Result(True, nontrivial=('str' in kinds and len(seen) >= 2) or any(abs(s_) >= 2 for s_ in case['plan']), labels=sorted(kinds))
 
 
 # ---- real models --------------------------------------------------------------------------------------
@@ -470,14 +488,19 @@ def synth_cases(draw):
     c = draw(st.integers(1, 4)) if shape in ('(n,c)', '(c,)') else 1
     if shape == '(c,)' and c == 1:
         c = 2
+    ncalls = draw(st.sampled_from([1, 2, 2, 3]))
+    ints_first = draw(st.booleans())
     fn = None
     if draw(st.booleans()):
         k = draw(st.integers(1, d))
         fn = draw(st.permutations(list(range(d))))[:k]
     return {'names': names, 'weights': [draw(st.integers(-3, 3)) for _ in range(d)], 'shape': shape, 'c': c,
             'dtype': draw(st.sampled_from(sorted(DTYPES))), 'wrapper': draw(st.sampled_from(['sklearn', 'sklearn', 'torch'])),
-            'batch': batch, 'rows': [[draw(st.integers(-4, 4)) for _ in range(d)] for _ in range(n)],
-            'perms': [draw(st.integers(0, 5)) for _ in range(n)], 'feature_names': fn}
+            'batch': batch, 'feature_names': fn,
+            # 1-3 consecutive calls on the same wrapper; the first one often all-integer, later ones real-valued
+            'calls': [{'rows': [[draw(st.integers(-4, 4)) if (ci == 0 and ints_first) else draw(st.sampled_from([0.75, -2.25, 1.5, 2.6, -0.5, 3, -1]))
+                                 for _ in range(d)] for _ in range(n)],
+                       'perms': [draw(st.integers(0, 5)) for _ in range(n)]} for ci in range(ncalls)]}
 
 
 @st.composite
@@ -496,8 +519,21 @@ def river_seq_cases(draw):
             v = draw(st.lists(st.tuples(st.sampled_from(['x', 'y', 0, 1]), st.sampled_from([0.1, 0.5, 0.9])).map(list), min_size=1,
                               max_size=3, unique_by=lambda kv: kv[0]))
         outs.append([k, v])
-    plan = draw(st.lists(st.sampled_from([1, 1, -1, -2, -3]), min_size=len(outs), max_size=len(outs)))
-    return {'outputs': outs, 'plan': plan}
+    ncalls = draw(st.integers(1, 6))
+    plan = draw(st.lists(st.sampled_from([1, 1, -1, -2, -3, -4]), min_size=ncalls, max_size=ncalls))
+    rows = []
+    for size in plan:
+        batch = []
+        for _ in range(abs(size)):
+            keys = draw(st.permutations(['a', 'b', 'c']))[:draw(st.integers(1, 3))]
+            batch.append([[k, draw(st.integers(0, 2))] for k in keys])
+        if len(batch) >= 2 and draw(st.booleans()):
+            # same value sequence under different keys
+            vals = [v for _, v in batch[0]]
+            other = list(reversed([k for k, _ in batch[0]])) if len(batch[0]) > 1 else ['b' if batch[0][0][0] == 'a' else 'a']
+            batch[1] = [[k, v] for k, v in zip(other, vals)]
+        rows.append(batch)
+    return {'outputs': outs, 'plan': plan, 'rows': rows}
 
 
 SUBS = {'synth': run_synth, 'river_seq': run_river_seq}
